@@ -79,3 +79,37 @@ def hrank : HPc → Nat
 def measure (s : St) : Nat := (s.pcs.map rank).sum + hrank s.hpc
 
 end TV.FileWait
+
+/-!
+The three "mailbox" registries of the transfer (`fileDoneRegistry`, `resumeInfoRegistry`, `streamRegistry`): `wait` looks for a
+pending message and otherwise registers its channel *in one critical section*; `deliver` hands the message to a registered waiter
+and otherwise leaves it pending, in one critical section too. Used with one waiter and one delivery per id.
+-/
+namespace TV.Mailbox
+
+structure St where
+  pending : Option Nat       -- a message left for whoever waits next
+  waiting : Bool             -- the waiter's channel is registered
+  got : Option Nat           -- what the waiter received
+  deriving DecidableEq, Repr
+
+inductive Step
+  | wait
+  | deliver (m : Nat)
+  deriving DecidableEq, Repr
+
+def step (s : St) : Step → St
+  | .wait =>
+    match s.pending with
+    | some m => { s with pending := none, got := some m }
+    | none => { s with waiting := true }
+  | .deliver m =>
+    if s.waiting then { s with waiting := false, got := some m } else { s with pending := some m }
+
+def init : St := { pending := none, waiting := false, got := none }
+
+def run (s : St) : List Step → St
+  | [] => s
+  | a :: as => run (step s a) as
+
+end TV.Mailbox
